@@ -347,7 +347,12 @@ def matrix_solve(M, b, method='default'):
 
     if method == 'DM':
         try:
-            sol_num, sol_den = M.to_DM().solve_den(b.to_DM())
+            Mdm, bdm = M.to_DM(), b.to_DM()
+            if Mdm.domain.is_EXRAW or bdm.domain.is_EXRAW:
+                # No zero testing in this domain (e.g., exp(-s * T)
+                # from a delayed source): use the fallback.
+                raise ValueError('Unsuitable domain')
+            sol_num, sol_den = Mdm.solve_den(bdm)
             x = (sol_num.to_field() / sol_den).to_Matrix()
         except:
             # Fallback
